@@ -1,6 +1,7 @@
 import CarModel.Proofs.Finalize
 import CarModel.Proofs.FactsTie
 import CarModel.Proofs.InspectFull
+import CarModel.Proofs.Cli
 /-
 C05 — Finalized output is a well-formed, self-describing CAR that matches what was put.
 -/
@@ -103,6 +104,24 @@ theorem finalized_inspection_accepts (H : HashFn) (hU : H.Uniform) (ro : ReadOpt
   have := inspect_layoutV2 H hU ro validate o.dataPad o.indexPad roots log true o.storeIdentity ix.bytes ix.codec
     hwf hmax h63 h10 lok hok (fun _ => index_bytes_codec ix)
   simpa using this
+
+/-- **… as does its verifier whenever every root is among the stored blocks**: for every session state
+    reachable through the invariant (any put history, paddings, codec, identity setting), `VerifyCar`
+    accepts the layout `finalize_layout` leaves — header rules, the full hash-verifying scan, roots
+    present, and an index lookup for every block, answered by the flattened session index (a
+    permutation of the payload's records by the store invariant; lookups after `Load` are exact). -/
+theorem finalized_verifier_accepts (H : HashFn) (ro : ReadOpts) (o : WOpts) (roots : List Cid) (s : Store)
+    (log : List Block) (ix : Index) (inv : Inv o (some roots) s log)
+    (hix : s.idx.flatten o.codec = some ix) (hrec : RecordsOK s.idx)
+    (hne : roots.isEmpty = false) (hin : (roots.all fun r => log.any fun b => b.cid == r) = true)
+    (ok : PayloadOK H ro (some roots) log) (h10 : 10 ≤ ro.maxHeader)
+    (lok : LayoutOK o.dataPad o.indexPad (payload (some roots) log).length) :
+    Cli.verifyCar H ro (layoutV2 o.dataPad o.indexPad (payload (some roots) log) true o.storeIdentity ix.bytes) = .ok () := by
+  refine Cli.verify_accepts_layout H ro o.dataPad o.indexPad o.storeIdentity o.codec roots log s.idx ix hne hin ok h10 lok
+    hix hrec ?_
+  intro b hb
+  obtain ⟨off, hoff⟩ := Cli.mem_withOffsets b log (headerSize ⟨some roots, 1⟩) hb
+  exact ⟨off, (inv.idx.mem_iff).mpr hoff⟩
 
 /-- … and in CARv1 mode, where the file is the payload (`v1_file_is_payload`). -/
 theorem v1_inspection_accepts (H : HashFn) (hU : H.Uniform) (ro : ReadOpts) (validate : Bool)
